@@ -7,11 +7,11 @@ Correspondence (see notes/prover_C06_TIE.md):
   n_of_path ifs                                 vs  ray_geometry.numinterfaces - 1
   path_legs N ifs ray                           vs  [ray_geometry.inc_leg_size(k)[i, j] for k in range(1, n + 1)]
   path_thetas N ifs ray                         vs  [ray_geometry.conventional_inc_angle(k)[i, j] for k in range(1, n)]
-  beamspread_outcome N vel legs thetas          vs  nan / +inf / finite value of beamspread_2d_for_path(ray_geometry)[i, j]
+  beamspread_outcome N vel legs thetas          vs  nan / +inf / -inf / finite value of beamspread_2d_for_path(ray_geometry)[i, j]
                                                     (legs and thetas READ from the RayGeometry object)
   vel_at vel idx                                vs  FermatPath(...).velocities[idx]
   range1 n                                      vs  list(range(1, n))
-  recip_sqrt_outcome NumF d                     vs  np.reciprocal(np.sqrt(d))
+  recip_sqrt_outcome NumF d                     vs  np.reciprocal(np.sqrt(d))   (every class of d: nan, -inf, < 0, -0.0, +0.0, > 0, +inf)
 
 with ifs = the interfaces (every point, every frame, both side flags), ray = ray_geometry.rays.indices[:, i, j] read
 from the real Rays object, vel = ray_geometry.rays.fermat_path.velocities.  Outcomes are compared exactly: the kind
@@ -63,9 +63,10 @@ Definition encl (r : res (list float)) : outc :=
   match r with Val a => (0%Z, a) | NoLeg => (1%Z, []) | IndexErr => (2%Z, []) | ValueErr => (3%Z, []) end.
 Definition fcode (v : fval float) : outc :=
   match v with
-  | Finite x => if PrimFloat.eqb x x then (0%Z, [x]) else (2%Z, [])   (* Finite nan (d = nan) is observed as nan *)
+  | Finite x => (0%Z, [x])
   | PlusInf => (1%Z, [])
   | NaN => (2%Z, [])
+  | MinusInf => (3%Z, [])
   end.
 Definition same (a b : outc) : bool := Z.eqb (fst a) (fst b) && list_eqb feq (snd a) (snd b).
 Definition v3_of (l : list float) : vec3 float := (nth 0 l zero, nth 1 l zero, nth 2 l zero).
@@ -146,6 +147,17 @@ def _call(f):
             return 0, f(), ""
     except Exception as e:  # noqa: BLE001
         return _kind_of_exception(e), None, f"{type(e).__name__}: {str(e)[:120]}"
+
+
+def _fclass(v):
+    """class of a binary64 result as the model's fval: 0 Finite x, 1 PlusInf, 2 NaN, 3 MinusInf"""
+    if v != v:
+        return 2, []
+    if v == math.inf:
+        return 1, []
+    if v == -math.inf:
+        return 3, []
+    return 0, [v]
 
 
 def _outc(kind, vals):
@@ -473,7 +485,7 @@ def gen_few_interfaces(rng, nif):
 
 
 def fixed_examples():
-    """E1 .. E9, R, B of notes/prover_C06_TIE.md"""
+    """E1 .. E9, R, B of notes/prover_C06_TIE.md; E10 of Proofs/BeamspreadPathExamples.v"""
     ex = []
 
     def one(name, pts, frames, flags, vel, duck=False, duck_vel=None, first_last=None):
@@ -499,6 +511,8 @@ def fixed_examples():
     t = np.array([1, 2, 3], float)
     one("E9", [tuple(Q @ np.array(p, float) + t) for p in z4], [(np.array(B, float) @ Q.T).tolist() for B in (I3, I3, J3, I3)],
         [None, False, True, None], [1.0, 2.0, 4.0])
+    # the same point of a wall met twice: zero-length leg, nan angle, nan virtual distance, outcome class NaN
+    one("E10-same-point-twice", [(0, 0, 0), (0, 0, 3), (0, 0, 3), (0, 0, 10)], [I3, I3, I3, I3], [None, False, False, None], [1.0, 2.0, 4.0])
     one("R", [(0, 0, 0), (0, 0, 1), (0, 0, 3)], [I3, I3, I3], [None, False, None], [1.0, 2.0])
     s3 = math.sqrt(3) / 2
     for r2 in (0.1, 1.0):
@@ -543,7 +557,7 @@ def evaluate(arim, sc, ij):
     vel = [float(v) for v in sc.rays.fermat_path.velocities]
     ray = [int(x) for x in np.asarray(sc.rays.indices)[:, i, j]]
     if kf == 0 and kl == 0 and kt == 0 and len(vel) >= en:
-        eout = (2, []) if vf != vf else ((1, []) if vf == math.inf else (0, [vf]))
+        eout = _fclass(vf)
     else:
         eout = (-1, [])
     ifl = clist([f"({clist([clist(list(p) + list(np.asarray(B).ravel()), cfloat) for p, B in zip(sc.points[k], sc.frames[k])])}, "
@@ -561,7 +575,8 @@ def evaluate(arim, sc, ij):
                 arim=dict(n=en, forward=[KIND.get(kf, "other exception"), vf if kf else float(vf).hex(), tf],
                           reverse=[KIND.get(kr, "other exception"), vr if kr else float(vr).hex(), tr],
                           legs=[KIND.get(kl, "other exception"), vl, tl], thetas=[KIND.get(kt, "other exception"), vt, tt],
-                          outcome_class=["Finite", "PlusInf", "NaN", "not compared"][eout[0]]))
+                          outcome_class=["Finite", "PlusInf", "NaN", "MinusInf", "not compared"][eout[0]],
+                          nan_read=bool(kl == 0 and kt == 0 and any(x != x for x in list(vl) + list(vt)))))
     return f"({inp}, {exp})", info, (kf, kr)
 
 
@@ -596,7 +611,8 @@ def run(chk, arim, rng, quick):
         infos.append(info)
         chk.count(tie_C06=sc.family, tie_C06_interfaces=sc.nif,
                   tie_C06_outcomes=f"forward {KIND.get(kinds[0], 'other')} / reverse {KIND.get(kinds[1], 'other')}",
-                  tie_C06_outcome_class=info["arim"]["outcome_class"])
+                  tie_C06_outcome_class=info["arim"]["outcome_class"] + (" (nan angle or leg read from the object: nan virtual distance)"
+                                                                         if info["arim"]["nan_read"] and info["arim"]["outcome_class"] == "NaN" else ""))
     bad = chk.coq_failing("tie_C06", COQ_IMPORTS, CASE_TYPE, lits, "check_case", shard=60, jobs=8)
     if bad:
         # which observables disagree, and the model's answers, for the first disagreeing cases; one report per
@@ -620,7 +636,7 @@ def run(chk, arim, rng, quick):
                           dict(infos[b], disagreeing_observables=[OBS[k] for k in obs],
                                correspondence="; ".join(CORR[k] for k in obs) or CORR[1],
                                model_answers=("kinds: 0 Val, 1 NoLeg, 2 IndexErr, 3 ValueErr; order: n, forward, reverse, legs, thetas, "
-                                              "outcome class (0 Finite, 1 PlusInf, 2 NaN, -1 not compared): "
+                                              "outcome class (0 Finite, 1 PlusInf, 2 NaN, 3 MinusInf, -1 not compared): "
                                               + " ".join(chunks[1 + pos].split())[:4000]),
                                case_number=b, disagreeing_case_numbers=bad[:200], coq_case=lits[b][:20000]),
                           failing_input_found=False)
@@ -647,17 +663,17 @@ def run(chk, arim, rng, quick):
         ulits.append(f"({cZ(1)}, [], {clist([nn], cZ)}, {_outc(0, [])}, {clist(list(range(1, nn)), cZ)})")
         uinfo.append(dict(correspondence="Model.BeamspreadPath.range1 vs list(range(1, n))", n=nn, python=list(range(1, nn))))
         chk.count(tie_C06="unit:range1")
-    ds = [0.0, 4.0, -1.0, 0.25, math.inf, 5e-324, -5e-324, 1e308, 21.0, 5.25] + \
-         [float(rng.integers(-64, 65)) / float(rng.choice([1, 2, 4, 16, 1024])) for _ in range(20 * scale)]
+    ds = [0.0, -0.0, math.nan, 4.0, -1.0, 0.25, math.inf, -math.inf, 5e-324, -5e-324, 1e308, -1e308, 21.0, 5.25] + \
+         [float(rng.integers(-64, 65)) / float(rng.choice([1, 2, 4, 16, 1024])) for _ in range(20 * scale)] + \
+         [float(rng.choice([0.0, -0.0, math.nan, math.inf, -math.inf])) for _ in range(4 * scale)]
     for d in ds:
-        if d == 0.0 and math.copysign(1.0, d) < 0:
-            continue        # -0.0 gives -inf in numpy; the model documents that the loop cannot produce it
         with np.errstate(all="ignore"):
             v = float(np.reciprocal(np.sqrt(np.array([[d]])))[0, 0])
-        eo = (2, []) if v != v else ((1, []) if v == math.inf else (0, [v]))
+        eo = _fclass(v)
         ulits.append(f"({cZ(2)}, {clist([d], cfloat)}, [], {_outc(*eo)}, [])")
         uinfo.append(dict(correspondence="Model.BeamspreadPath.recip_sqrt_outcome NumF vs np.reciprocal(np.sqrt(d))", d=d, numpy=v))
-        chk.count(tie_C06="unit:recip_sqrt_outcome " + ["finite", "+inf", "nan"][eo[0]])
+        chk.count(tie_C06="unit:recip_sqrt_outcome " + ["finite", "+inf", "nan", "-inf"][eo[0]]
+                  + (" (d = nan)" if d != d else " (d = -0.0)" if d == 0.0 and math.copysign(1.0, d) < 0 else ""))
     ubad = chk.coq_failing("tie_C06_unit", COQ_IMPORTS, "unitT", ulits, "check_unit", shard=400, jobs=4)
     for b in ubad[:10]:
         name = uinfo[b]["correspondence"].split(" vs ")[0].split(".")[-1].split(" ")[0]
